@@ -13,7 +13,7 @@
   correspondence check (trusted base), not proved.
 -/
 import HotXL.Model.Lexer
-import HotXL.Generated.Tables
+import HotXL.Generated.Grammar
 
 namespace HotXL.Syntax
 open HotXL HotXL.Lexer
